@@ -105,6 +105,31 @@ def exc_tag(e):
 TAGNAME = {0: "Ok", 1: "RTCMMessageError", 2: "RTCMParseError", 3: "RTCMStreamError", 4: "RTCMTypeError", 5: "FOREIGN", 9: "UNMODELLED"}
 
 
+# ---------------------------------------------------------------- per-call watchdog (non-termination is a finding, not a hang)
+class WatchdogTimeout(BaseException):
+    """BaseException on purpose: the library's `except Exception` must not swallow it"""
+
+
+class watchdog:
+    def __init__(self, seconds=20):
+        self.seconds = seconds
+
+    def __enter__(self):
+        import signal
+
+        def handler(signum, frame):
+            raise WatchdogTimeout("call did not finish within %ds" % self.seconds)
+        self._old = signal.signal(signal.SIGALRM, handler)
+        signal.setitimer(signal.ITIMER_REAL, self.seconds)
+        return self
+
+    def __exit__(self, *a):
+        import signal
+        signal.setitimer(signal.ITIMER_REAL, 0)
+        signal.signal(signal.SIGALRM, self._old)
+        return False
+
+
 # ---------------------------------------------------------------- implementation import guard
 def import_impl():
     import pyrtcm
